@@ -192,3 +192,21 @@ func (*Z3) Run() error { ZLog = append(ZLog, "run:Z3"); return nil }
 
 //go:norace
 func (*Z3) Close() error { ZLog = append(ZLog, "close:Z3"); return nil }
+
+// Bystander processors: user instantiation-aware processors that only embed the library's
+// default (which answers "do not populate" for itself) and sort ahead of the built-in
+// property processors. They must not affect anybody else's work.
+type BystanderO struct {
+	processors.DefaultInstantiationAwareComponentPostProcessor
+}
+
+func (*BystanderO) Naming() string { return "zz-bystander-o" }
+func (*BystanderO) Order() int     { return 1 }
+
+type BystanderP struct {
+	processors.DefaultInstantiationAwareComponentPostProcessor
+}
+
+func (*BystanderP) Naming() string { return "zz-bystander-p" }
+func (*BystanderP) Priority()      {}
+func (*BystanderP) Order() int     { return 1 }
